@@ -89,7 +89,9 @@ func VerifC05Header() {
 	data := verifBytes("in", 25+verifParam("tail", 2))
 	r := NewReader(bytes.NewReader(data))
 	buf := make([]byte, 4)
+	verifAllocMark()
 	_, err := r.Read(buf)
+	verifAllocCheck(2*(128<<20) + 1<<20) // the two documented 128 MiB limits, and slack
 	if err != nil {
 		verifNote("rejected")
 	} else {
